@@ -398,6 +398,12 @@ func (c *vacCase) run() {
 		if err != nil || fr != freshBefore {
 			// F51 (design): a vacuumer that has not merged another writer's version purges the marker of a row
 			// that version still holds as live; the merged view then shows the row again
+			// F22 (dependency): with a node cache a merge (the refresh before the vacuum) can leave one key
+			// twice in the tree in memory; the vacuum's commit stores that tree
+			if c.cache > 0 && err == nil && hasDuplicateKey(fr) && c.st.known("F22") {
+				c.st.Count("known_F22")
+				return false
+			}
 			if stale && err == nil && isSuperset(fr, freshBefore) && c.st.known("F51") {
 				c.st.Count("known_F51")
 				return false
@@ -694,7 +700,24 @@ func vacCmd(args []string) int {
 		b, store := sqlh.Bucket()
 		c := &vacCase{st: st, r: r, id: fmt.Sprintf("vac-%d-%d", *seed, i), bucket: b, store: store, epn: gen.Pick(r, []int{2, 4, 4096}), cache: gen.Pick(r, []int{0, 0, 16, 1000})}
 		progressLine(fmt.Sprintf("CASE %d node_cache_entries=%d", i, c.cache))
+		nf := len(st.Failures)
 		c.run()
+		if c.failed && c.cache > 0 && len(st.Failures) > nf && (knownIDs["F42"] || knownIDs["F22"]) {
+			// Differential attribution: mast shares live node objects through the node cache and modifies them in
+			// place (F22, F42 - dependency), which surfaces in many shapes at low rates. The same history is run
+			// again WITHOUT a node cache; only a failure that survives that is reported as new.
+			r2 := root.Fork(i)
+			b2, store2 := sqlh.Bucket()
+			c2 := &vacCase{st: NewStats("vac-recheck", *seed), r: r2, id: c.id + "-nocache", bucket: b2, store: store2, epn: gen.Pick(r2, []int{2, 4, 4096}), cache: gen.Pick(r2, []int{0, 0, 16, 1000})}
+			c2.cache = 0
+			progressLine(fmt.Sprintf("CASE %d again with node_cache_entries=0", i))
+			c2.run()
+			if !c2.failed {
+				st.Failures = st.Failures[:nf]
+				_ = st.known("F42") || st.known("F22")
+				st.Count("known_F22_F42_only_with_node_cache")
+			}
+		}
 		st.Cases++
 		if i < 1 {
 			st.Sample(c.log)
